@@ -39,6 +39,7 @@ type vrScenario struct {
 	replaceContent string        // content of the replace intent (default valid)
 	existingPrio   int32         // != 0: the intent already exists in the intended store with this priority
 	newPrio        int32         // priority of the intent in the transaction (default 10)
+	sbiFailsFrom   int           // > 0: the target rejects its n-th and every later Set (1-based)
 }
 
 var vrTraceMu sync.Mutex
@@ -94,12 +95,15 @@ func vrRunLive(t *testing.T, sc vrScenario) (tracep *[]string, rsp *sdcpb.Transa
 		},
 	)
 	sbi := mocktarget.NewMockTarget(controller)
+	sets := 0
 	sbi.EXPECT().Set(gomock.Any(), gomock.Any()).AnyTimes().DoAndReturn(
 		func(_ context.Context, _ target.TargetSource) (*sdcpb.SetDataResponse, error) {
 			vrTraceMu.Lock()
 			defer vrTraceMu.Unlock()
-			trace = append(trace, fmt.Sprintf("Set(ok=%v)", !sc.sbiFails))
-			if sc.sbiFails {
+			sets++
+			fails := sc.sbiFails || (sc.sbiFailsFrom > 0 && sets >= sc.sbiFailsFrom)
+			trace = append(trace, fmt.Sprintf("Set(ok=%v)", !fails))
+			if fails {
 				return nil, errors.New("device rejected the change")
 			}
 			return &sdcpb.SetDataResponse{}, nil
@@ -338,6 +342,47 @@ func TestVerifReplayTransactionSet(t *testing.T) {
 			}
 			if err == nil {
 				d.transactionManager.Confirm("trans1")
+			}
+		}
+	}
+	// C03: a dry run, or a rejected run, of a re-prioritised intent leaves the stores as they were
+	for _, pr := range [][2]int32{{10, 5}, {5, 10}} {
+		for _, kind := range []string{"dry-run", "rejected"} {
+			n++
+			sc := vrScenario{content: "valid", existingPrio: pr[0], newPrio: pr[1], dryRun: kind == "dry-run"}
+			if kind == "rejected" {
+				sc.content = "missing-mandatory"
+			}
+			trace, _, err, _ := vrRun(t, sc)
+			if len(trace) != 0 {
+				clause := map[string]string{"dry-run": "dryrun_changes_nothing", "rejected": "rejected_changes_nothing"}[kind]
+				for _, fn := range []string{fnTS, fnLL} {
+					fmt.Printf("REPLAY-FAIL fn=%s clause=%s input=%s,existingPriority=%d,newPriority=%d err=%v effects=%v why=a %s transaction has effects\n", fn, clause, sc, pr[0], pr[1], err, trace, kind)
+				}
+			}
+		}
+	}
+	// C06: whatever a cancel or the timer runs into, the datastore accepts a new transaction once the timeout has passed
+	for _, how := range []string{"timer", "cancel"} {
+		n++
+		sc := vrScenario{content: "valid", timeout: 60 * time.Millisecond, sbiFailsFrom: 2}
+		_, _, err, d := vrRunLive(t, sc)
+		if err != nil {
+			fmt.Printf("REPLAY-FAIL fn=%s clause=panic input=%s why=unexpected error %v\n", fnTS, sc, err)
+			continue
+		}
+		var cerr error
+		if how == "cancel" {
+			cerr = d.TransactionCancel(context.Background(), "trans1")
+		}
+		time.Sleep(200 * time.Millisecond)
+		ctx2, cancel2 := context.WithTimeout(context.Background(), 300*time.Millisecond)
+		_, err2 := d.TransactionSet(ctx2, "trans2", nil, nil, time.Hour, true)
+		cancel2()
+		if errors.Is(err2, ErrDatastoreLocked) {
+			clause := "never_wedged"
+			for _, fn := range []string{fnTS, "(*datastore/types.TransactionManager).Cancel", "(*datastore/types.TransactionManager).Rollback"} {
+				fmt.Printf("REPLAY-FAIL fn=%s clause=%s input=%s,rollbackTimeout=60ms,rollbackFails=true,endedBy=%s (cancel error: %v) why=a TransactionSet after the timeout is refused: the datastore is locked with no timer running\n", fn, clause, sc, how, cerr)
 			}
 		}
 	}
